@@ -595,6 +595,10 @@ func (fc *fileCtx) visit(n ast.Node, parent ast.Node, d int) {
 				fc.replace(n.Pos(), n.End(), "simrt.Stdout()", d, false)
 				fc.markRewritten(local)
 				fc.count("os.Stdout")
+			case "Stderr":
+				fc.replace(n.Pos(), n.End(), "simrt.Stderr()", d, false)
+				fc.markRewritten(local)
+				fc.count("os.Stderr")
 			default:
 				if r, ok := osFuncs[n.Sel.Name]; ok {
 					fc.replace(n.Pos(), n.End(), "simrt."+r, d, false)
